@@ -26,6 +26,9 @@ var benchUser = &testobj.TestObject{
 	}},
 }
 
+// the same object with a name of 300 bytes (lengths beyond the runtime's small-integer cache)
+var benchUserLong = &testobj.TestObject{Id: "long", Name: bytes.Repeat([]byte("0123456789"), 30), Status: 1}
+
 // unsigned values handed over by pointer (no boxing in the harness itself)
 var (
 	scaledBigU   uint64 = 1700000000
@@ -294,6 +297,7 @@ func runC19(o *Options) *Result {
 		"include-long-key":       `{% for i := 0; i < 3; i++ %}{% include scaled-include-target-with-a-key-longer-than-thirty-two-bytes nosuch %}{% endfor %}`,
 		"range-string-keyed-map": `{% for name, bits := range user.Flags sep , %}{%= name %}={%= bits %}{% endfor %}|{% for k, item := range user.Finance.History sep ; %}{%= k %}:{%= item.Cost %}{% endfor %}`,
 		"ctx-copy-unsigned":      `{% ctx st = bigu %}state={%= st %};{% if st >= 256 %}big{% else %}small{% endif %}{% ctx n = user.Status %}{%= n %}{% ctx f = user.Finance.Balance %}{%= f %}{% ctx u8 = smallu %}{%= u8 %}`,
+		"len-cap-long-value":     `{% if len(ulong.Name) > 16 %}L{% endif %}|{% if cap(ulong.Name) >= 16 %}C{% endif %}|{% if len(user.Name) == 4 %}s{% endif %}{%= len(ulong.Name) > 299 ? user.Id : user.Name %}`,
 		"regions-nested":         `{% htmlescape %}<b>{%= user.Name %}{% urlencode %}a b&{%= user.Id %}{% endurlencode %}</b>{% jsonquote %}"{%= user.Name %}"{% endjsonquote %}{% endhtmlescape %}`,
 		"switch-in-loops":        `{% for _, a := range user.Finance.History %}{% switch a.Cost %}{% case 14.345241 %}A{% case 60 %}B{% default %}C{% endswitch %}{% for j := 0; j < 2; j++ %}{% if a.Cost > 20 %}{%= a.Cost|default(0) %}{% else %}-{% endif %}{% endfor %}{% endfor %}`,
 	}
@@ -316,6 +320,7 @@ func runC19(o *Options) *Result {
 		dyntpl.RegisterTplKey(key, tree)
 		cases = append(cases, allocCase{Name: "scaled/" + name, Key: key, Src: src, Setup: func(ctx *dyntpl.Ctx) {
 			ctx.Set("user", benchUser, tobjIns)
+			ctx.Set("ulong", benchUserLong, tobjIns)
 			ctx.SetStatic("bigu", &scaledBigU)
 			ctx.SetStatic("smallu", &scaledSmallU)
 		}})
